@@ -557,7 +557,7 @@ def run(ctx):
                 "spurious wake-ups), and every schedule prefix of depth %d over fixed small scripts; the extracted model replays the schedule "
                 "the implementation took, step by step (thread, scheduling-point kind, object, events = return codes and delivered ids). "
                 "non-trivial = at least one frame delivered and (more than one run, or a trigger, or a shutdown exit); "
-                "distinct = distinct (scripts, schedule)" % (9 if thorough else 5))
+                "distinct = distinct (scripts, schedule)" % (9 if thorough else 6))
     ctx.assumptions = [
         "fairness of the OS scheduler (every 'returns' claim): C18_stop_unblocks bounds the designated threads' steps by mu + the number "
         "of spurious wake-ups and shows a thread is always enabled; that enabled threads get scheduled is assumed",
@@ -582,7 +582,7 @@ def run(ctx):
         process(ctx, orac, impl, corpus, "corpus")
     ctx.extra["corpus_cases"] = len(corpus)
 
-    n = 40000 if thorough else 2400
+    n = 60000 if thorough else 6000
     cases = []
     for k in range(n):
         nruns = ctx.rng.choice([1, 2, 2, 3, 3])
@@ -592,7 +592,7 @@ def run(ctx):
         if k < 3:
             ctx.sample({"controller": c["ctl"], "caller": c["cal"], "e0": e0, "seed": c["seed"], "spur": c["spur"]})
     process(ctx, orac, impl, cases, "random")
-    ex = exhaustive_cases(EXH_SCRIPTS, 9 if thorough else 5, 3)
+    ex = exhaustive_cases(EXH_SCRIPTS, 9 if thorough else 6, 3)
     ctx.extra["exhaustive_prefix_cases"] = len(ex)
     process(ctx, orac, impl, ex, "exhaustive-prefix")
 
